@@ -120,6 +120,7 @@ impl GraphRunner for Graph {
             crate::verif::point(crate::verif::pt::ST_PASS_START, 0, 0);
             let mut done = true;
             let mut all_idle = true;
+            let activity_before = crate::stream::activity();
             if self.cancel_token.is_canceled() {
                 break;
             }
@@ -168,10 +169,14 @@ impl GraphRunner for Graph {
                     info!("{} EOF, exiting", name);
                 }
             }
-            if done {
+            // A block may have moved data and still returned a wait or EOF
+            // status. Then some other block (maybe earlier in the list) may
+            // now be able to make progress, so it's not time to stop.
+            let moved = crate::stream::activity() != activity_before;
+            if done && !moved {
                 break;
             }
-            if all_idle {
+            if all_idle && !moved {
                 let idle_sleep = std::time::Duration::from_millis(10);
                 trace!("No output or consumption from any block. Sleeping a bit.");
                 std::thread::sleep(idle_sleep);
